@@ -32,5 +32,7 @@ Allowed(v, lb, ub, type, out) ==
   IF Inside(v, lb, ub) \/ type = "none" THEN out = v
   ELSE IF type = "truncate" THEN out = Clip(v, lb, ub)
   ELSE IF Inside(Reflect(v, lb, ub), lb, ub) THEN out = Reflect(v, lb, ub)
-  ELSE Inside(out, lb, ub)
+  \* the reflected value violates the opposite bound: reflected there as well
+  ELSE IF Inside(Reflect(Reflect(v, lb, ub), lb, ub), lb, ub) THEN out = Reflect(Reflect(v, lb, ub), lb, ub)
+  ELSE Inside(out, lb, ub)                 \* overshoot of more than two bound widths: any value within the bounds
 =============================================================================
